@@ -474,9 +474,9 @@ func run(ci any, r *mon.Rec) {
 						d0 := conns[0]
 						cmu.Unlock()
 						d0.mu.Lock()
-						w := d0.writes
+						w, gone := d0.writes, d0.closed
 						d0.mu.Unlock()
-						if w >= need {
+						if w >= need || gone { // (gone: the other closer was first - no further write will be counted)
 							break
 						}
 						time.Sleep(100 * time.Microsecond)
